@@ -131,7 +131,7 @@ void gom(Rng& rng)
 }
 
 // division by a cnl::constant<N>: the constant is lifted to rounding_integer<TC, Tag> (TC = int when N fits, else int64)
-template<class Tag, class L, long long N, class TC>
+template<class Tag, class L, long long N, class TC, class CT = long long>
 void divc(Rng& rng)
 {
     using A = rounding_integer<L, Tag>;
@@ -156,6 +156,40 @@ void divc(Rng& rng)
     for (L l : lv) {
         A a{l};
         R r = R(N);
-        RB("div", a / constant<N>{})
+        // the value type of the constant (any built-in integer type, signed or unsigned) does not matter:
+        // the constant is lifted to the signed type TC that holds its value
+        RB("div", a / constant<static_cast<CT>(N)>{})
+        if constexpr (N > 0 && N < 64) {
+            RB("mul", a * constant<static_cast<CT>(N)>{})
+            RB("add", a + constant<static_cast<CT>(N)>{})
+            RB("mod", a % constant<static_cast<CT>(N)>{})
+        }
+    }
+}
+
+// make_static_integer<RoundingTag>(constant<V>{}) and make_static_integer<RoundingTag>(int): "any number whose rounding mode is set".
+//   C08 msi <mode> <c|rt> <V> <r> => <the number made>|<that number / r>       (each field `<type>:<innermost value>`)
+template<class Tag, long long V>
+void msi(Rng& rng)
+{
+    std::string mode = TagN<Tag>::name();
+    std::vector<int> rs{1, -1, 2, -2, 3, -3, 4, 7, -7, 10, 100, -1000, 2147483647, -2147483647};
+    for (int i = 0; i < 6; ++i) rs.push_back(int(rng.next() % 2000) - 1000 ? int(rng.next() % 2000) - 1000 : 5);
+    for (int r : rs) {
+        if (r == 0) continue;
+        printf("C08 msi %s c %lld %d => ", mode.c_str(), V, r);
+        VH_RUN(make_static_integer<Tag>(constant<V>{}), ([&](auto const& x) {
+                   print_num(x);
+                   putchar('|');
+                   print_num(x / r);
+               }))
+        if constexpr (V >= -2147483647 && V <= 2147483647) {
+            printf("C08 msi %s rt %lld %d => ", mode.c_str(), V, r);
+            VH_RUN(make_static_integer<Tag>(int(V)), ([&](auto const& x) {
+                       print_num(x);
+                       putchar('|');
+                       print_num(x / r);
+                   }))
+        }
     }
 }
